@@ -340,7 +340,7 @@ func (t *GzipPacked) UnmarshalTL(d *tl.Decoder) error {
 		return err
 	}
 
-	t.Obj, err = tl.DecodeUnknownObject(obj)
+	t.Obj, err = d.DecodeNestedObject(obj)
 	if err != nil {
 		return errors.Wrap(err, "parsing gzipped object")
 	}
